@@ -37,7 +37,8 @@
 (* schedule classes "commit order" and "late start" can be imposed.        *)
 EXTENDS BulkAbs
 
-CONSTANTS MaxLen, Alpha, Variant
+CONSTANTS MaxLen, Alpha, Variant,
+          Pols      \* the policies explored (subset of DOMAIN Policies)
 
 VARIABLES stream,   \* the generated client stream
           pol,      \* name of the policy in force
@@ -54,12 +55,12 @@ VARIABLES stream,   \* the generated client stream
 vars == <<stream, pol, phase, i, gname, started, chans, cur, cons, st, ins, errs, orphans, fail, sched>>
 
 Pinned == Variant = "pinned"
-Alph == IF Alpha = "safe" THEN SafeAlphabet ELSE Alphabet
+Alph == CASE Alpha = "safe" -> SafeAlphabet [] Alpha = "mini" -> MiniAlphabet [] OTHER -> Alphabet
 W == Policies[pol]
 Visible == SelectSeq(stream, LAMBDA el : el.g \in W)
 NewChan == [q |-> <<>>, closed |-> FALSE]
 
-Init == /\ stream = <<>> /\ pol \in DOMAIN Policies /\ phase = "gen" /\ i = 1 /\ gname = "" /\ started = FALSE
+Init == /\ stream = <<>> /\ pol \in Pols /\ phase = "gen" /\ i = 1 /\ gname = "" /\ started = FALSE
         /\ chans = IF Pinned THEN <<NewChan>> ELSE <<>>
         /\ cur = IF Pinned THEN 1 ELSE 0
         /\ cons = <<>> /\ st = InitStore /\ ins = 0 /\ errs = 0 /\ orphans = 0 /\ fail = "" /\ sched = <<>>
